@@ -112,6 +112,10 @@ class StateVector(np.ndarray):
 
         new_compl = {}
         for k, v in self._data.items():
+            if k == "infos":
+                # helper object bound to self (see the infos property): the new
+                # object builds its own on demand
+                continue
             if k != "maneuvers" and isinstance(v, (list, tuple, dict, set)):
                 # free metadata containers are copied in depth, so that no
                 # nested mutable object is shared with the original
